@@ -130,6 +130,16 @@ impl Tracer {
         self.inject_signal_queue.iter().copied().collect()
     }
 
+    /// Take a signal that was seen at a signal-delivery-stop of a tracee and still waits
+    /// for injection (the tracee still sits in that stop).
+    pub fn take_pending_signal(&mut self, pid: Pid) -> Option<Signal> {
+        let idx = self
+            .inject_signal_queue
+            .iter()
+            .position(|(tracee_pid, _)| *tracee_pid == pid)?;
+        self.inject_signal_queue.remove(idx).map(|(_, signal)| signal)
+    }
+
     /// Continue debugee execution until stop happened.
     pub fn resume(&mut self, tcx: TraceContext) -> Result<StopReason, Error> {
         loop {
